@@ -907,10 +907,79 @@ func (e *vfE7VEnv) run(w vfE7VWorld, r vfE7VReq) {
 	// process dies. Wait until no goroutine is left inside clusterinfo (a panicking one kills the process here).
 	vfE7WaitFetchers()
 	impl := e.cl.render(r.kind, rec.Code, rec.Body.Bytes())
+	if bad := vfE7SortCheck(r.kind, len(w.Lookupds) > 0, rec.Code, rec.Body.Bytes()); bad != "" {
+		fmt.Printf("E7-UNSORTED %s view (%s): %s\n", r.kind, r.tokens(), bad)
+	}
 	fmt.Fprintln(e.out.impl, impl)
 	e.out.impl.Flush()
 	e.out.n++
 	e.hist[fmt.Sprintf("%s:%d", r.kind, rec.Code)]++
+}
+
+// vfE7SortCheck: direct oracle on the ORDER of the lists a view returns (the correspondence compares them as
+// multisets): topic names strictly ascending (sort.Strings after Uniq); the per-node reports of the topic and
+// channel views ascending by hostname (TopicStatsByHost / ChannelStatsByHost, re-sorted on every Add); the
+// producers of /api/nodes ascending by hostname in nsqlookupd mode (ProducersByHost; GetNSQDProducers does
+// not sort) and each producer's topics ascending by name (sort.Sort(producer.Topics)).
+func vfE7SortCheck(kind string, lookupdMode bool, status int, body []byte) string {
+	if status != 200 {
+		return ""
+	}
+	asc := func(what string, keys []string, strict bool) string {
+		for i := 1; i < len(keys); i++ {
+			if keys[i] < keys[i-1] || (strict && keys[i] == keys[i-1]) {
+				return fmt.Sprintf("%s not in order: %q", what, keys)
+			}
+		}
+		return ""
+	}
+	type host struct {
+		Hostname string `json:"hostname"`
+	}
+	switch kind {
+	case "topics":
+		var d struct {
+			Topics []string `json:"topics"`
+		}
+		if json.Unmarshal(body, &d) == nil {
+			return asc("topic names", d.Topics, true)
+		}
+	case "topic", "channel":
+		var d struct {
+			Nodes []host `json:"nodes"`
+		}
+		if json.Unmarshal(body, &d) == nil {
+			var ks []string
+			for _, n := range d.Nodes {
+				ks = append(ks, n.Hostname)
+			}
+			return asc("node reports by hostname", ks, false)
+		}
+	case "nodes":
+		var d struct {
+			Nodes []struct {
+				Hostname string `json:"hostname"`
+				Topics   []struct {
+					Topic string `json:"topic"`
+				} `json:"topics"`
+			} `json:"nodes"`
+		}
+		if json.Unmarshal(body, &d) == nil && lookupdMode {
+			var ks []string
+			for _, n := range d.Nodes {
+				ks = append(ks, n.Hostname)
+				var ts []string
+				for _, t := range n.Topics {
+					ts = append(ts, t.Topic)
+				}
+				if bad := asc("topics of producer "+n.Hostname, ts, false); bad != "" {
+					return bad
+				}
+			}
+			return asc("producers by hostname", ks, false)
+		}
+	}
+	return ""
 }
 
 func (e *vfE7VEnv) close() {
@@ -1193,6 +1262,53 @@ func TestVerifE7Views(t *testing.T) {
 				}
 				e.hist["interleaved"]++
 			}
+		}
+	}
+	// int64 wrap: counters between 2^61 and 2^63-1 on three nodes, so that the exact sums leave the int64 range
+	// (each single value still decodes); the views must show the wrapped sums (Props.C18.int64_sum_wraps)
+	big := func() int64 { return int64(1)<<61 + int64(rng.Next()>>2)%(int64(1)<<62+int64(1)<<61) }
+	for round := 0; round < 6+n/100; round++ {
+		for mode := 0; mode < 2; mode++ {
+			var w vfE7VWorld
+			for i := 0; i < 3; i++ {
+				nd := vfE7Nsqd{Sym: fmt.Sprintf("N%d", i), Filters: rng.Intn(2) == 0, Hostname: vfE7HostPool[rng.Intn(len(vfE7HostPool))],
+					TCPPort: 4150 + i, Version: "1.3.0"}
+				tp := vfE7GenTopic(rng, "t1")
+				tp.Depth, tp.Msg, tp.Zone, tp.Region, tp.Global = big(), big(), big(), big(), big()
+				tp.Backend = int64(rng.Next() >> 1)
+				if rng.Intn(2) == 0 {
+					tp.Backend = int64(rng.Intn(5))
+				}
+				ch := vfE7GenChan(rng, "c1")
+				ch.Depth, ch.InFlight, ch.Deferred, ch.Requeue, ch.Timeout, ch.Msg = big(), big(), big(), big(), big(), big()
+				ch.Zone, ch.Region, ch.Global, ch.ClientCount = big(), big(), big(), big()
+				ch.Backend = int64(rng.Next() >> 1)
+				tp.Channels = []vfE7Chan{ch}
+				if rng.Intn(2) == 0 {
+					tp.Channels = append(tp.Channels, vfE7GenChan(rng, "c2"))
+				}
+				nd.Topics = []vfE7Topic{tp}
+				w.Nsqds = append(w.Nsqds, nd)
+			}
+			if mode == 0 {
+				l := vfE7Lookupd{Sym: "L0", Topics: []string{"t1"}}
+				for _, nd := range w.Nsqds {
+					p := vfE7Producer{Hostname: nd.Hostname, Sym: nd.Sym, TCPPort: nd.TCPPort, Version: nd.Version, Remote: "10.0.0.1:1",
+						Topics: []string{"t1"}, Tombstones: []bool{false}}
+					l.Nodes = append(l.Nodes, p)
+					l.Lookup = append(l.Lookup, p)
+				}
+				w.Lookupds = []vfE7Lookupd{l}
+			} else {
+				for _, nd := range w.Nsqds {
+					w.NsqdAddrs = append(w.NsqdAddrs, nd.Sym)
+				}
+			}
+			e.run(w, vfE7VReq{kind: "topic", a: "t1"})
+			e.run(w, vfE7VReq{kind: "channel", a: "t1", b: "c1"})
+			e.run(w, vfE7VReq{kind: "counter"})
+			e.run(w, vfE7VReq{kind: "node", a: "N1"})
+			e.hist["int64-wrap"]++
 		}
 	}
 	fmt.Printf("E7-VIEWS cases=%d hist=%v\n", e.out.n, e.hist)
